@@ -292,7 +292,8 @@ pub fn run(ctx: &mut Ctx) -> (String, Value, Vec<String>) {
     ("exploration".into(), cov, vec!["no hook observes the cache: histories are enumerated as a tree (no state merging) and each is replayed on fresh objects".into()])
 }
 
-pub fn replay(kind: &str, case: &Value) -> bool {
+pub fn replay(kind: &str, case: &Value, key: &str) -> bool {
+    let beyond_key = key.ends_with("-beyond-extended-prefix");
     let pf: Vec<u64> = serde_json::from_value(case["dmin"].clone()).unwrap();
     if kind == "hist" {
         let hist: Vec<Op> = serde_json::from_value(case["history"].clone()).unwrap();
@@ -301,6 +302,48 @@ pub fn replay(kind: &str, case: &Value) -> bool {
         println!("replay: got {:?} want {:?}", got, want);
         return got != Ok(want);
     }
-    println!("replay: re-run ./run.sh C13 quick for extrapolation artefacts (prefix {:?})", pf);
-    true
+    // extrapolation artefact: re-evaluate this (prefix, extension) pair
+    let h = 60u64;
+    if case["ext"] == "auto" {
+        let plain = eta_vec(&ArrSpec::curve(&pf), h);
+        let ec = eta_vec(&ExtrapolatingCurve::new(ArrSpec::curve(&pf)), h);
+        let (m, ..) = Aut::Dmin { d: pf.iter().map(|x| *x as i16).collect() }.max_events(h as usize);
+        let bad = (0..=h as usize).find(|x| ec[*x] > plain[*x] || m[*x] > ec[*x] as u64);
+        println!("replay: ExtrapolatingCurve over {:?}: first bad delta {:?}", pf, bad);
+        return bad.is_some();
+    }
+    let e: Ext = serde_json::from_value(case["ext"].clone()).unwrap();
+    let plain = eta_vec(&ArrSpec::curve(&pf), h);
+    let r = catch(|| {
+        let mut c = ArrSpec::curve(&pf);
+        match &e {
+            Ext::Horizon(x) => c.extrapolate(d(*x)),
+            Ext::Steps(n) => c.extrapolate_steps(*n),
+            Ext::WithBound(dl, n) => c.extrapolate_with_bound((d(*dl), *n)),
+        }
+        let kept: Vec<u64> = (2..pf.len() + 2).map(|n| du(c.min_distance(n))).collect();
+        (kept, eta_vec(&c, h), du(c.min_distance(1 << 40)))
+    });
+    match r {
+        Err(e) => {
+            println!("replay: panic {e}");
+            true
+        }
+        Ok((kept, eta, reach)) => {
+            let mut dd: Vec<i16> = pf.iter().map(|x| *x as i16).collect();
+            if let Ext::WithBound(dl, n) = &e {
+                if *n == pf.len() + 2 {
+                    dd.push((*dl as i16 - 1).max(*dd.last().unwrap()));
+                }
+            }
+            let (m, ..) = Aut::Dmin { d: dd }.max_events(h as usize);
+            // the artefact's key says which side of the extended prefix it is about
+            let above = (0..=h as usize)
+                .filter(|x| if beyond_key { *x as u64 > reach } else { *x as u64 <= reach })
+                .find(|x| eta[*x] > plain[*x]);
+            let under = (0..=h as usize).find(|x| m[*x] > eta[*x] as u64);
+            println!("replay: prefix {:?} {:?}: entries kept {:?}, extended prefix reaches {reach}, first delta above the plain curve {:?}, first delta below an admissible sequence {:?}", pf, e, kept == pf, above, under);
+            kept != pf || above.is_some() || under.is_some()
+        }
+    }
 }
